@@ -1024,7 +1024,8 @@ def arms(fn, adt_suffix, place_pred=None):
             targets.setdefault(v, set()).add(b)
     if sw is None:
         return None, {}
-    reach = {v: fn.reach(list(ts)) for v, ts in targets.items()}
+    # do not follow a loop back through the switch itself
+    reach = {v: fn.reach(list(ts), avoid_blocks={sw}) for v, ts in targets.items()}
     out = {}
     for v, r in reach.items():
         others = set()
